@@ -161,8 +161,17 @@ impl LifeWorld {
                 self.refs.insert(hid, rr);
             }
             "l.drop" => {
-                self.handles.remove(&hid);
+                let h = self.handles.remove(&hid);
                 self.refs.remove(&hid);
+                if kv.s("how") == "unwind" {
+                    // the owner goes away while its thread is unwinding from a panic (a worker that died, a contained panic)
+                    let _ = std::panic::catch_unwind(std::panic::AssertUnwindSafe(move || {
+                        let _owner = h;
+                        panic!("unwinding with an owner on the stack");
+                    }));
+                } else {
+                    drop(h);
+                }
             }
             "l.fail" => {
                 // a construction that fails (file range past the end of the file, by `over` bytes) owns nothing afterwards
@@ -283,7 +292,7 @@ pub fn run(rec: &mut Rec, rng: &mut Rng, n_ops: usize) {
                 format!("l.fail rid={} flen={} size={}", next_r - 1, flen, flen + 1 + rng.below(5000))
             } else {
                 let all: Vec<u64> = regs.iter().chain(maps.iter()).copied().collect();
-                format!("l.drop hid={}", rng.pick(&all))
+                format!("l.drop hid={} how={}", rng.pick(&all), if rng.chance(1, 4) { "unwind" } else { "plain" })
             };
             go(&mut w, rec, line);
         }
@@ -293,7 +302,7 @@ pub fn run(rec: &mut Rec, rng: &mut Rng, n_ops: usize) {
         while !all.is_empty() {
             let i = rng.below(all.len() as u64) as usize;
             let h = all.remove(i);
-            go(&mut w, rec, format!("l.drop hid={}", h));
+            go(&mut w, rec, format!("l.drop hid={} how={}", h, if rng.chance(1, 4) { "unwind" } else { "plain" }));
         }
     }
 }
